@@ -281,8 +281,7 @@ Section MSC.
   (* the rows are satisfied exactly when the chosen subsets (value 1) cover the universe *)
   Theorem msc_enc_exact m a : encode_msc I = Some m -> (sat a m <-> msc_sem a).
   Proof.
-    unfold encode_msc. destruct (sc_weights I) as [ws|]; [|discriminate].
-    destruct (msc_obj 0 (sc_subsets I) ws) as [o|]; [|discriminate]. cbn [option_map]. intros E. injection E as <-.
+    unfold encode_msc. destruct (msc_obj 0 (sc_subsets I) (msc_weights I)) as [o|]; [|discriminate]. cbn [option_map]. intros E. injection E as <-.
     unfold sat, msc_sem. cbn [cols rows]. unfold msc_cols, msc_rows. rewrite !Forall_map_iff.
     assert (Hrow : (forall i, In i (idxs (sc_subsets I)) -> bin (a (Sub i))) -> forall el,
               sat_row a (cover_row I el) <->
@@ -314,21 +313,37 @@ Section MSC.
       cbn [length firstn zipn sumq eval fst snd]. split; [rewrite H1; ring|lia].
   Qed.
 
-  Theorem msc_objective_is_weight m a ws : sc_weights I = Some ws -> encode_msc I = Some m ->
-    objective a m == sumq (fun iw => snd iw * a (Sub (fst iw))) (zipn 0 (firstn (length (sc_subsets I)) ws)).
+  Theorem msc_objective_is_weight m a : encode_msc I = Some m ->
+    objective a m == sumq (fun iw => snd iw * a (Sub (fst iw))) (zipn 0 (firstn (length (sc_subsets I)) (msc_weights I))).
   Proof.
-    unfold encode_msc. intros ->. destruct (msc_obj 0 (sc_subsets I) ws) as [o|] eqn:E; [|discriminate].
+    unfold encode_msc. destruct (msc_obj 0 (sc_subsets I) (msc_weights I)) as [o|] eqn:E; [|discriminate].
     cbn [option_map]. intros H. injection H as <-. unfold objective. cbn [obj]. apply (msc_obj_sem a _ _ _ _ E).
+  Qed.
+
+  (* default weights (None): a model is always built and its objective is the number of chosen subsets *)
+  Lemma msc_obj_repeat a : forall subsets i, exists o, msc_obj i subsets (repeat 1 (length subsets)) = Some o /\
+    eval a o == sumq (fun j => a (Sub j)) (map N.of_nat (seq i (length subsets))).
+  Proof.
+    induction subsets as [|S0 r IH]; intros i; cbn [length repeat msc_obj seq map sumq].
+    - exists []. split; reflexivity.
+    - destruct (IH (S i)) as (o & -> & Ho). eexists. split; [reflexivity|]. cbn [eval fst snd]. rewrite Ho. ring.
+  Qed.
+
+  Theorem msc_default_weights_unit a : sc_weights I = None ->
+    exists m, encode_msc I = Some m /\ objective a m == sumq (fun j => a (Sub j)) (idxs (sc_subsets I)).
+  Proof.
+    intros Hn. unfold encode_msc, msc_weights. rewrite Hn. destruct (msc_obj_repeat a (sc_subsets I) 0%nat) as (o & -> & Ho).
+    eexists. split; [reflexivity|]. unfold objective. cbn [obj]. exact Ho.
   Qed.
 End MSC.
 
-(* finding #18: with the documented default (no weights) no model is built although a cover exists *)
-Theorem msc_default_weights_refuted : exists I : msc_inst,
-  sc_weights I = None /\ encode_msc I = None /\
+(* FIXED finding #18 (4e8a1f8): before the fix the documented default (no weights) built no model although a cover exists *)
+Theorem msc_old_default_weights_refuted : exists I : msc_inst,
+  sc_weights I = None /\ encode_msc_old I = None /\ encode_msc I <> None /\
   (forall el, In el (sc_universe I) -> exists S, In S (sc_subsets I) /\ nmem el S = true).
 Proof.
   exists {| sc_universe := [1; 2; 3]%N; sc_subsets := [[1; 2]; [2; 3]; [3]]%N; sc_weights := None |}.
-  split; [reflexivity|]. split; [reflexivity|]. cbn [sc_universe sc_subsets].
+  split; [reflexivity|]. split; [reflexivity|]. split; [discriminate|]. cbn [sc_universe sc_subsets].
   intros el [<-|[<-|[<-|[]]]].
   - exists [1; 2]%N. split; [left; reflexivity|reflexivity].
   - exists [1; 2]%N. split; [left; reflexivity|reflexivity].
@@ -375,8 +390,8 @@ Section MgsSearch.
 
   (* the loop answers k only if the model for k is optimal and every smaller size from the lower bound on
      was proven infeasible: k is the least feasible size >= lowerbound *)
-  Theorem mgsm_loop_sound lb n tried k : mgsm_loop status lb n = (tried, Some k) ->
-    feasible k /\ In k (mgsm_range lb n) /\ (lb <= k)%nat /\ forall k', (lb <= k' < k)%nat -> ~ feasible k'.
+  Theorem mgsm_loop_sound lb n extra tried k : mgsm_loop status lb n extra = (tried, Some k) ->
+    feasible k /\ In k (mgsm_range lb n extra) /\ (lb <= k)%nat /\ forall k', (lb <= k' < k)%nat -> ~ feasible k'.
   Proof.
     unfold mgsm_loop. intros H. apply mgsm_loop_on_spec in H. destruct H as (pre & Hp & post & Hks & Htr & Hs).
     unfold mgsm_range in *. destruct (seq_split_at _ _ _ _ _ Hks) as [Hpre Hk].
@@ -385,8 +400,8 @@ Section MgsSearch.
   Qed.
 
   (* unsolved means: the whole range was proven infeasible, or an inconclusive status was met (and the loop stopped there) *)
-  Theorem mgsm_loop_none lb n tried : mgsm_loop status lb n = (tried, None) ->
-    (tried = mgsm_range lb n /\ forall k, In k (mgsm_range lb n) -> ~ feasible k) \/
+  Theorem mgsm_loop_none lb n extra tried : mgsm_loop status lb n extra = (tried, None) ->
+    (tried = mgsm_range lb n extra /\ forall k, In k (mgsm_range lb n extra) -> ~ feasible k) \/
     (exists k, In k tried /\ status k = MgOther).
   Proof.
     unfold mgsm_loop. intros H. apply mgsm_loop_on_spec in H. destruct H as (pre & Hp & [[-> Hpre]|(k & post & Hks & -> & Hs)]).
@@ -395,10 +410,10 @@ Section MgsSearch.
   Qed.
 
   (* with conclusive statuses the loop succeeds whenever some size of its range is feasible *)
-  Theorem mgsm_loop_complete lb n : (forall k, status k = MgOptimal \/ status k = MgInfeasible) ->
-    (exists k, In k (mgsm_range lb n) /\ feasible k) -> exists tried k, mgsm_loop status lb n = (tried, Some k).
+  Theorem mgsm_loop_complete lb n extra : (forall k, status k = MgOptimal \/ status k = MgInfeasible) ->
+    (exists k, In k (mgsm_range lb n extra) /\ feasible k) -> exists tried k, mgsm_loop status lb n extra = (tried, Some k).
   Proof.
-    intros Hc (k0 & Hin & Hf). unfold mgsm_loop. induction (mgsm_range lb n) as [|k r IH]; [destruct Hin|].
+    intros Hc (k0 & Hin & Hf). unfold mgsm_loop. induction (mgsm_range lb n extra) as [|k r IH]; [destruct Hin|].
     cbn [mgsm_loop_on]. destruct (Hc k) as [E|E]; rewrite E.
     - exists [k], k. reflexivity.
     - destruct Hin as [->|Hin]; [exfalso; apply (inf_infeasible _ E); exact Hf|].
@@ -410,13 +425,14 @@ End MgsSearch.
    the loop as it is now stops unsolved on the same history *)
 Theorem mgsm_loop_old_skips_inconclusive_refuted : exists (status : nat -> mstatus) lb n tried k,
   status 1%nat = MgOther /\ mgsm_loop_old status lb n = (tried, Some k) /\ In 1%nat tried /\ (1 < k)%nat /\
-  mgsm_loop status lb n = ([1%nat], None).
+  mgsm_loop status lb n 0 = ([1%nat], None).
 Proof.
   exists (fun k => if (k =? 1)%nat then MgOther else MgOptimal), 1%nat, 3%nat, [1; 2]%nat, 2%nat.
   repeat split; try reflexivity; [left; reflexivity|lia].
 Qed.
 
-(* int(): truncation toward zero of a solver value inside the integrality tolerance *)
+(* FIXED finding (f5a395c): int() truncates a solver value inside the integrality tolerance toward zero;
+   round(), which the code uses now, returns the intended integer (py_round_near below) *)
 Theorem py_int_truncates_refuted : exists q : Q, 3 - (1 # 1000000) <= q /\ q < 3 /\ py_int q = 2%Z.
 Proof. exists (29999999 # 10000000). split; [|split]; [unfold Qle; cbn; lia|unfold Qlt; cbn; lia|reflexivity]. Qed.
 
@@ -438,7 +454,7 @@ Definition genset (mult : nat) (numbers : list Q) (total : Q) (g : list Q) : Pro
 Theorem mgsm_loop_old_upper_end_refuted : exists numbers total,
   (exists g, length g = 2%nat /\ genset 1 numbers total g) /\
   (forall g, length g = 1%nat -> ~ genset 1 numbers total g) /\
-  In 2%nat (mgsm_range 1 (length numbers)) /\ ~ In 2%nat (mgsm_range_old 1 (length numbers)) /\
+  In 2%nat (mgsm_range 1 (length numbers) 0) /\ ~ In 2%nat (mgsm_range_old 1 (length numbers)) /\
   forall status, snd (mgsm_loop_old status 1 (length numbers)) = None \/ snd (mgsm_loop_old status 1 (length numbers)) = Some 1%nat.
 Proof.
   exists [5], 6. split; [|split; [|split; [|split]]].
@@ -458,7 +474,7 @@ Qed.
 (* second witness of #13: [1,2,4], total 7: {1,2,4} has size 3 = len(numbers), which the range excludes *)
 Theorem mgsm_loop_old_upper_end_refuted2 : exists numbers total,
   (exists g, length g = 3%nat /\ genset 1 numbers total g) /\
-  ~ In 3%nat (mgsm_range_old 1 (length numbers)) /\ In 3%nat (mgsm_range 1 (length numbers)).
+  ~ In 3%nat (mgsm_range_old 1 (length numbers)) /\ In 3%nat (mgsm_range 1 (length numbers) 0).
 Proof.
   exists [1; 2; 4], 7. split; [|split].
   - exists [1; 2; 4]. split; [reflexivity|]. split; [|split].
@@ -469,7 +485,7 @@ Proof.
       * exists [0; 1; 0]%Z. split; [reflexivity|]. split; [repeat (apply Forall_cons; [lia|]); apply Forall_nil|]. vm_compute; reflexivity.
       * exists [0; 0; 1]%Z. split; [reflexivity|]. split; [repeat (apply Forall_cons; [lia|]); apply Forall_nil|]. vm_compute; reflexivity.
   - cbn. intros [C|[C|[]]]; discriminate.
-  - cbn. tauto.
+  - vm_compute. tauto.
 Qed.
 
 (* ================================================================== MinGenSet: what the rows force *)
@@ -493,11 +509,14 @@ Proof.
 Qed.
 
 Section MGS.
+  Variable pub : Q.                         (* bound handed to the integer product helper *)
+  Variable piub : Q.                        (* upper bound of the pi columns *)
   Variable I : mgs_inst.
   Variable k : nat.
   Let total := mg_total I.
   Let t := parts_t I.
   Hypothesis mult_pos : (1 <= mg_mult I)%nat.
+  Hypothesis pub_ge : mg_total I <= pub.
 
   Definition mgs_sem (a : var -> Q) : Prop :=
     (forall i, In i (layers k) -> 0 <= a (Gen i) <= total /\ (mg_int I = true -> is_int (a (Gen i)))) /\
@@ -505,8 +524,8 @@ Section MGS.
     (forall j aj, In (j, aj) (zipn 0 (mg_numbers I)) ->
        (forall i, In i (layers k) ->
           exists z : Z, a (Xv i j) == inject_Z z /\ (0 <= z <= Z.of_nat (mg_mult I))%Z /\
-                        (mult1 I = false -> (z < 2 ^ Z.of_nat (nbits I))%Z) /\
-                        a (Pij i j) == a (Xv i j) * a (Gen i)) /\
+                        (mult1 I = false -> (z < 2 ^ Z.of_nat (num_bits pub))%Z) /\
+                        a (Pij i j) == a (Xv i j) * a (Gen i) /\ a (Pij i j) <= piub) /\
        sumq (fun i => a (Pij i j)) (layers k) == aj) /\
     (forall i, In i (layers (k - 2)) -> a (Gen i) <= a (Gen (i + 1)%N)) /\
     (forall c cs, In (c, cs) (zipn 0 (parts_of I)) ->
@@ -527,11 +546,11 @@ Section MGS.
                             (zipn 0 (snd cc))) (zipn 0 (parts_of I)).
   Proof. unfold part_rows, ijc. destruct (parts_of I); [congruence|reflexivity]. Qed.
 
-  Theorem mgs_enc_sound a : sat a (encode_mgs I k) -> mgs_sem a.
+  Theorem mgs_enc_sound a : sat a (encode_mgs_gen pub piub I k) -> mgs_sem a.
   Proof.
-    unfold sat, encode_mgs. cbn [cols rows]. unfold mgs_cols, mgs_rows.
+    unfold sat, encode_mgs_gen. cbn [cols rows]. unfold mgs_cols, mgs_rows.
     rewrite !Forall_app. intros ((CG & CX & CP & CB & CY) & (RT & RJ & RS & RP)).
-    rewrite Forall_map_iff in CG. rewrite Forall_flat_map in CX. rewrite Forall_flat_map in RJ.
+    rewrite Forall_map_iff in CG. rewrite Forall_flat_map in CX. rewrite Forall_flat_map in RJ. rewrite Forall_flat_map in CP.
     assert (HG : forall i, In i (layers k) -> 0 <= a (Gen i) <= total /\ (mg_int I = true -> is_int (a (Gen i)))).
     { intros i Hi. destruct (CG i Hi) as (A & B & C). cbn [cvar clb cub cint qcol] in *. fold total in B. tauto. }
     unfold mgs_sem. split; [exact HG|]. split; [|split; [|split]].
@@ -539,24 +558,27 @@ Section MGS.
     - intros j aj Hj. specialize (RJ _ Hj). rewrite Forall_app, Forall_flat_map in RJ. destruct RJ as [RPR RSUM]. cbn [fst snd] in *.
       split.
       + intros i Hi. specialize (RPR i Hi). destruct (HG i Hi) as [HGi _].
+        assert (HPc : a (Pij i j) <= piub).
+        { specialize (CP i Hi). rewrite Forall_map_iff in CP. destruct (CP j (zipn_in_idxs _ _ _ Hj)) as (_ & B & _). exact B. }
         assert (HXc : sat_col a (qcol (Xv i j) 0 (x_ub I) true)).
         { specialize (CX i Hi). rewrite Forall_map_iff in CX. apply CX. eapply zipn_in_idxs. exact Hj. }
         unfold prod_rows in RPR. unfold x_ub in HXc. destruct (mult1 I) eqn:M.
         * assert (Hb : bin (a (Xv i j))) by (apply bin_of_col; exact HXc).
-          destruct (bin_int_range _ _ mult_pos Hb) as (z & Hz & Hr). exists z. split; [exact Hz|]. split; [exact Hr|]. split; [discriminate|].
+          destruct (bin_int_range _ _ mult_pos Hb) as (z & Hz & Hr). exists z. split; [exact Hz|]. split; [exact Hr|]. split; [discriminate|]. split; [|exact HPc].
           apply (mcc_rows_exact a (Xv i j) (Gen i) (Pij i j) 0 (mg_total I) Hb); [exact HGi|exact RPR].
         * rewrite Forall_flat_map in CB.
-          assert (HBc : Forall (sat_col a) (intprod_cols (Pij i j) 0 (mg_total I) (nbits I))).
+          assert (HBc : Forall (sat_col a) (intprod_cols (Pij i j) 0 pub (num_bits pub))).
           { specialize (CB j (zipn_in_idxs _ _ _ Hj)). rewrite Forall_flat_map in CB. apply CB. exact Hi. }
-          assert (Hsem := proj1 (intprod_rows_sem (Xv i j) (Gen i) (Pij i j) 0 (mg_total I) (nbits I)
+          assert (Hsem := proj1 (intprod_rows_sem (Xv i j) (Gen i) (Pij i j) 0 pub (num_bits pub)
                                   ltac:(split; discriminate) ltac:(split; discriminate) ltac:(split; discriminate) a) (conj HBc RPR)).
           cbn zeta in Hsem. destruct Hsem as (HB & HF & HVx & HVp).
-          assert (Hip : intprod (nbits I) (a (Xv i j)) (a (Gen i)) (a (Pij i j)) 0 (mg_total I)).
+          assert (Hip : intprod (num_bits pub) (a (Xv i j)) (a (Gen i)) (a (Pij i j)) 0 pub).
           { eexists _, _. split; [|split; [exact HB|split; [exact HF|split; [exact HVx|exact HVp]]]].
             rewrite map_length, seq_length. reflexivity. }
-          assert (H0t : 0 <= 0 <= mg_total I) by (fold total; lra).
-          apply (intprod_exact _ _ _ _ _ _ HGi H0t) in Hip. destruct Hip as (z & Hz & Hr & Hp).
-          exists z. split; [exact Hz|]. split; [|split; [intros _; lia|exact Hp]].
+          assert (H0t : 0 <= 0 <= pub) by (fold total in pub_ge; lra).
+          assert (HGp : 0 <= a (Gen i) <= pub) by (fold total in pub_ge; lra).
+          apply (intprod_exact _ _ _ _ _ _ HGp H0t) in Hip. destruct Hip as (z & Hz & Hr & Hp).
+          exists z. split; [exact Hz|]. split; [|split; [intros _; lia|split; [exact Hp|exact HPc]]].
           destruct HXc as (_ & Hu & _). cbn [cvar cub qcol] in Hu. rewrite Hz in Hu. rewrite <- Zle_Qle in Hu. lia.
       + inversion RSUM as [|? ? H1 _]; subst. unfold row_sum_pi in H1. rewrite sat_row_eq, eval_ones_sumq in H1. exact H1.
     - intros i Hi. unfold sym_rows in RS. rewrite Forall_map_iff in RS. specialize (RS i Hi).
@@ -604,12 +626,30 @@ Proof.
 Qed.
 
 (* every satisfying assignment carries a generating multiset of size k *)
+Lemma prod_ub_ge I : mg_total I <= prod_ub I /\ inject_Z (Z.of_nat (mg_mult I)) <= prod_ub I.
+Proof.
+  unfold prod_ub. cbn zeta. destruct (Qle_bool (inject_Z (Z.of_nat (mg_mult I))) (mg_total I)) eqn:E.
+  - apply Qle_bool_iff in E. split; [lra|exact E].
+  - split; [|lra]. apply Qlt_le_weak. apply Qnot_le_lt. intros C. apply Qle_bool_iff in C. congruence.
+Qed.
+
+(* the bit vector of the multiplicity (b959a54) can represent every value 0 .. max_multiplicity *)
+Theorem mgs_bits_suffice I : 0 <= mg_total I -> (Z.of_nat (mg_mult I) < 2 ^ Z.of_nat (num_bits (prod_ub I)))%Z.
+Proof.
+  intros H0. destruct (prod_ub_ge I) as [Ht Hm]. destruct (num_bits_spec (prod_ub I)) as [Hp _]; [lra|].
+  unfold pow2 in Hp. assert (inject_Z (Z.of_nat (mg_mult I)) + 1 <= inject_Z (2 ^ Z.of_nat (num_bits (prod_ub I)))) by lra.
+  change 1 with (inject_Z 1) in H. rewrite <- inject_Z_plus, <- Zle_Qle in H. lia.
+Qed.
+
+Theorem mgs_enc_sound_code I k a : (1 <= mg_mult I)%nat -> sat a (encode_mgs I k) -> mgs_sem (prod_ub I) (pi_ub I) I k a.
+Proof. intros Hm Hs. unfold encode_mgs in Hs. exact (mgs_enc_sound (prod_ub I) (pi_ub I) I k Hm (proj1 (prod_ub_ge I)) a Hs). Qed.
+
 Theorem mgs_sound_multiset I k a : (1 <= mg_mult I)%nat -> sat a (encode_mgs I k) ->
   let g := map (fun i => a (Gen i)) (layers k) in
   length g = k /\ genset (mg_mult I) (mg_numbers I) (mg_total I) g /\
   (mg_int I = true -> Forall is_int g).
 Proof.
-  intros Hm Hsat. apply (mgs_enc_sound I k Hm) in Hsat. destruct Hsat as (HG & HT & HJ & _ & _). cbn zeta.
+  intros Hm Hsat. apply (mgs_enc_sound_code I k a Hm) in Hsat. destruct Hsat as (HG & HT & HJ & _ & _). cbn zeta.
   split; [unfold layers; rewrite !map_length, seq_length; reflexivity|]. split; [split; [|split]|].
   - apply Forall_map_iff. intros i Hi. apply HG. exact Hi.
   - rewrite sumql_map. exact HT.
@@ -678,48 +718,59 @@ Proof.
   - rewrite (dotz_compl _ _ Hl), <- He, Hs. reflexivity.
 Qed.
 
-Lemma in_removed numbers total y : In y (mgs_removed numbers total) ->
+Lemma in_removed compl numbers total y : In y (mgs_removed_gen compl numbers total) ->
   exists v, In v numbers /\
-    ((y = (total - v)%Q /\ qmem (total - v) numbers = true /\ v < total - v) \/ (y = v /\ (v == total \/ v == 0))).
+    ((compl = true /\ y = (total - v)%Q /\ qmem (total - v) numbers = true /\ v < total - v) \/ (y = v /\ (v == total \/ v == 0))).
 Proof.
-  unfold mgs_removed. rewrite in_flat_map. intros (v & Hv & H). exists v. split; [exact Hv|]. apply in_app_or in H. destruct H as [H|H].
-  - destruct (qmem (total - v) numbers && Qlt_bool v (total - v)) eqn:E; [|destruct H].
-    apply andb_true_iff in E. destruct E as [E1 E2]. apply Qlt_bool_iff in E2. destruct H as [<-|[]]. left. tauto.
+  unfold mgs_removed_gen. rewrite in_flat_map. intros (v & Hv & H). exists v. split; [exact Hv|]. apply in_app_or in H. destruct H as [H|H].
+  - destruct (compl && qmem (total - v) numbers && Qlt_bool v (total - v)) eqn:E; [|destruct H].
+    apply andb_true_iff in E. destruct E as [E1 E2]. apply andb_true_iff in E1. destruct E1 as [E0 E1].
+    apply Qlt_bool_iff in E2. destruct H as [<-|[]]. left. tauto.
   - destruct (Qeq_bool v total || Qeq_bool v 0) eqn:E; [|destruct H]. destruct H as [<-|[]]. right. split; [reflexivity|].
     apply orb_true_iff in E. destruct E as [E|E]; apply Qeq_bool_iff in E; tauto.
 Qed.
 
-(* the removal of total / zero / duplicates / complements done by __init__ loses nothing when
-   every element may be used at most once (max_multiplicity = 1) *)
-Theorem complement_removal_sound numbers total g :
-  genset 1 (mgs_preprocess true numbers total) total g -> genset 1 numbers total g.
+(* removal of total / zero / duplicates, and of complements when [compl]: sound whenever complements are
+   only removed for max_multiplicity = 1 *)
+Lemma removal_sound_gen compl mult numbers total g : (1 <= mult)%nat -> (compl = true -> mult = 1%nat) ->
+  genset mult (mgs_preprocess_gen compl true numbers total) total g -> genset mult numbers total g.
 Proof.
-  intros (Hpos & Hsum & Hgen). split; [exact Hpos|]. split; [exact Hsum|].
-  cbn [mgs_preprocess] in Hgen.
-  assert (Hkept : forall a, In a numbers -> qmem a (mgs_removed numbers total) = false -> gen_by 1 g a).
-  { intros a Ha R. destruct (qnodup_complete (filter (fun x => negb (qmem x (mgs_removed numbers total))) numbers) a) as (y & Hy & E).
+  intros Hm Hc (Hpos & Hsum & Hgen). split; [exact Hpos|]. split; [exact Hsum|].
+  cbn [mgs_preprocess_gen] in Hgen.
+  assert (Hkept : forall a, In a numbers -> qmem a (mgs_removed_gen compl numbers total) = false -> gen_by mult g a).
+  { intros a Ha R. destruct (qnodup_complete (filter (fun x => negb (qmem x (mgs_removed_gen compl numbers total))) numbers) a) as (y & Hy & E).
     - apply filter_In. split; [exact Ha|]. rewrite R. reflexivity.
-    - apply (gen_by_eq 1 g y a); [symmetry; exact E|]. apply Hgen. exact Hy. }
-  assert (Hsmall : forall v, In v numbers -> v < total - v -> gen_by 1 g v).
-  { intros v Hv Hlt. destruct (qmem v (mgs_removed numbers total)) eqn:R; [|apply Hkept; assumption].
-    apply qmem_spec in R. destruct R as (y & Hy & E). destruct (in_removed _ _ _ Hy) as (v' & Hv' & [(-> & _ & Hlt')|(-> & [Et|E0])]).
+    - apply (gen_by_eq mult g y a); [symmetry; exact E|]. apply Hgen. exact Hy. }
+  assert (Hsmall : forall v, In v numbers -> v < total - v -> gen_by mult g v).
+  { intros v Hv Hlt. destruct (qmem v (mgs_removed_gen compl numbers total)) eqn:R; [|apply Hkept; assumption].
+    apply qmem_spec in R. destruct R as (y & Hy & E). destruct (in_removed _ _ _ _ Hy) as (v' & Hv' & [(_ & -> & _ & Hlt')|(-> & [Et|E0])]).
     - exfalso. lra.
-    - apply (gen_by_eq 1 g total v); [rewrite E, Et; reflexivity|]. apply gen_total; [lia|exact Hsum].
-    - apply (gen_by_eq 1 g 0 v); [rewrite E, E0; reflexivity|]. apply gen_zero. }
-  intros a Ha. destruct (qmem a (mgs_removed numbers total)) eqn:R; [|apply Hkept; assumption].
-  apply qmem_spec in R. destruct R as (y & Hy & E). destruct (in_removed _ _ _ Hy) as (v & Hv & [(-> & _ & Hlt)|(-> & [Et|E0])]).
-  - apply (gen_by_eq 1 g (total - v) a); [symmetry; exact E|]. apply gen_compl; [exact Hsum|]. apply Hsmall; assumption.
-  - apply (gen_by_eq 1 g total a); [rewrite E, Et; reflexivity|]. apply gen_total; [lia|exact Hsum].
-  - apply (gen_by_eq 1 g 0 a); [rewrite E, E0; reflexivity|]. apply gen_zero.
+    - apply (gen_by_eq mult g total v); [rewrite E, Et; reflexivity|]. apply gen_total; [exact Hm|exact Hsum].
+    - apply (gen_by_eq mult g 0 v); [rewrite E, E0; reflexivity|]. apply gen_zero. }
+  intros a Ha. destruct (qmem a (mgs_removed_gen compl numbers total)) eqn:R; [|apply Hkept; assumption].
+  apply qmem_spec in R. destruct R as (y & Hy & E). destruct (in_removed _ _ _ _ Hy) as (v & Hv & [(Hcp & -> & _ & Hlt)|(-> & [Et|E0])]).
+  - specialize (Hc Hcp). subst mult. apply (gen_by_eq 1 g (total - v) a); [symmetry; exact E|]. apply gen_compl; [exact Hsum|]. apply Hsmall; assumption.
+  - apply (gen_by_eq mult g total a); [rewrite E, Et; reflexivity|]. apply gen_total; [exact Hm|exact Hsum].
+  - apply (gen_by_eq mult g 0 a); [rewrite E, E0; reflexivity|]. apply gen_zero.
 Qed.
 
-(* finding #23: the code applies the same removal for larger multiplicities, where it is unsound:
-   [2,3] with total 5 keeps only 2; {1,4} generates 2 = 2*1 but not 3 with multiplicities <= 2 *)
-Theorem complement_removal_refuted : exists numbers total g,
-  genset 2 (mgs_preprocess true numbers total) total g /\ ~ genset 2 numbers total g.
+(* the pre-processing of __init__ as it is now (complements only for max_multiplicity = 1, 295fbde) loses nothing,
+   for EVERY max_multiplicity >= 1 *)
+Theorem complement_removal_sound mult numbers total g : (1 <= mult)%nat ->
+  genset mult (mgs_preprocess true mult numbers total) total g -> genset mult numbers total g.
 Proof.
-  exists [2; 3], 5, [1; 4]. split.
-  - change (mgs_preprocess true [2; 3] 5) with [2]. split; [repeat constructor; lra|]. split; [vm_compute; reflexivity|].
+  intros Hm. unfold mgs_preprocess. apply removal_sound_gen; [exact Hm|]. intros E. apply Nat.eqb_eq in E. exact E.
+Qed.
+
+(* FIXED finding #23 (295fbde): the old code removed complements for every multiplicity, which is unsound:
+   [2,3] with total 5 keeps only 2; {1,4} generates 2 = 2*1 but not 3 with multiplicities <= 2.
+   The pre-processing as it is now keeps both numbers. *)
+Theorem complement_removal_old_refuted : exists numbers total g,
+  genset 2 (mgs_preprocess_old true numbers total) total g /\ ~ genset 2 numbers total g /\
+  mgs_preprocess true 2 numbers total = numbers.
+Proof.
+  exists [2; 3], 5, [1; 4]. split; [|split; [|reflexivity]].
+  - change (mgs_preprocess_old true [2; 3] 5) with [2]. split; [repeat constructor; lra|]. split; [vm_compute; reflexivity|].
     intros a [<-|[]]. exists [2; 0]%Z. split; [reflexivity|]. split; [repeat (apply Forall_cons; [lia|]); apply Forall_nil|]. vm_compute; reflexivity.
   - intros (_ & _ & Hg). destruct (Hg 3 (or_intror (or_introl eq_refl))) as (xs & Hl & Hf & He).
     destruct xs as [|x1 [|x2 [|? ?]]]; try discriminate.
@@ -729,12 +780,12 @@ Proof.
     (assert (x2 = 0 \/ x2 = 1 \/ x2 = 2)%Z as [->|[->| ->]] by lia); vm_compute in He; discriminate He.
 Qed.
 
-(* finding (C12 #8 at this call site): the multiplicity gets ceil(log2(total+1)) bits; with total = 1 and
+(* FIXED finding (b959a54; C12 #8 at this call site): in the OLD encoder the multiplicity got ceil(log2(total+1)) bits; with total = 1 and
    max_multiplicity = 2 the multiplicity 2 cannot be represented: {1/4, 3/4} generates 1/2 = 2 * 1/4 and 1/4,
    but the model for k = 2 has no satisfying assignment *)
-Theorem mgs_multiplicity_bits_refuted : exists (I : mgs_inst) (k : nat) (g : list Q),
+Theorem mgs_old_multiplicity_bits_refuted : exists (I : mgs_inst) (k : nat) (g : list Q),
   mg_mult I = 2%nat /\ length g = k /\ genset (mg_mult I) (mg_numbers I) (mg_total I) g /\
-  forall a, ~ sat a (encode_mgs I k).
+  (forall a, ~ sat a (encode_mgs_old I k)) /\ (Z.of_nat (mg_mult I) < 2 ^ Z.of_nat (num_bits (prod_ub I)))%Z.
 Proof.
   exists {| mg_numbers := [1 # 2; 1 # 4]; mg_total := 1; mg_int := false; mg_mult := 2; mg_parts := None |}, 2%nat, [1 # 4; 3 # 4].
   split; [reflexivity|]. split; [reflexivity|]. split.
@@ -742,18 +793,18 @@ Proof.
     intros a [<-|[<-|[]]].
     + exists [2; 0]%Z. split; [reflexivity|]. split; [repeat (apply Forall_cons; [lia|]); apply Forall_nil|]. vm_compute; reflexivity.
     + exists [1; 0]%Z. split; [reflexivity|]. split; [repeat (apply Forall_cons; [lia|]); apply Forall_nil|]. vm_compute; reflexivity.
-  - intros a Hsat. apply mgs_enc_sound in Hsat; [|cbn; lia]. destruct Hsat as (_ & HT & HJ & _ & _).
+  - split; [|vm_compute; reflexivity]. intros a Hsat. unfold encode_mgs_old in Hsat. apply mgs_enc_sound in Hsat; [|cbn; lia|cbn [mg_total]; lra]. destruct Hsat as (_ & HT & HJ & _ & _).
     cbn [mg_total mg_numbers] in HT, HJ.
     change (layers 2) with [0; 1]%N in *. cbn [sumq] in HT.
     destruct (HJ 0%N (1 # 2) (or_introl eq_refl)) as [HX0 HS0].
     destruct (HJ 1%N (1 # 4) (or_intror (or_introl eq_refl))) as [HX1 HS1].
     cbn [sumq] in HS0, HS1.
-    destruct (HX0 0%N (or_introl eq_refl)) as (z00 & E00 & R00 & B00 & P00).
-    destruct (HX0 1%N (or_intror (or_introl eq_refl))) as (z10 & E10 & R10 & B10 & P10).
-    destruct (HX1 0%N (or_introl eq_refl)) as (z01 & E01 & R01 & B01 & P01).
-    destruct (HX1 1%N (or_intror (or_introl eq_refl))) as (z11 & E11 & R11 & B11 & P11).
+    destruct (HX0 0%N (or_introl eq_refl)) as (z00 & E00 & R00 & B00 & P00 & _).
+    destruct (HX0 1%N (or_intror (or_introl eq_refl))) as (z10 & E10 & R10 & B10 & P10 & _).
+    destruct (HX1 0%N (or_introl eq_refl)) as (z01 & E01 & R01 & B01 & P01 & _).
+    destruct (HX1 1%N (or_intror (or_introl eq_refl))) as (z11 & E11 & R11 & B11 & P11 & _).
     specialize (B00 eq_refl). specialize (B10 eq_refl). specialize (B01 eq_refl). specialize (B11 eq_refl).
-    change (2 ^ Z.of_nat (nbits _))%Z with 2%Z in *.
+    change (2 ^ Z.of_nat (num_bits _))%Z with 2%Z in *.
     rewrite P00, P10, E00, E10 in HS0. rewrite P01, P11, E01, E11 in HS1.
     assert (z00 = 0 \/ z00 = 1)%Z as [->| ->] by lia; assert (z10 = 0 \/ z10 = 1)%Z as [->| ->] by lia;
     assert (z01 = 0 \/ z01 = 1)%Z as [->| ->] by lia; assert (z11 = 0 \/ z11 = 1)%Z as [->| ->] by lia;
@@ -782,4 +833,79 @@ Lemma Forall_dec_rows a rs : forallb (row_ok a) rs = true -> Forall (sat_row a) 
 Proof.
   intros H. rewrite forallb_forall in H. apply Forall_forall. intros r Hr. specialize (H r Hr).
   unfold row_ok in H. unfold sat_row. destruct (sns r); [apply Qle_bool_iff|apply Qle_bool_iff|apply Qeq_bool_iff]; exact H.
+Qed.
+
+(* ---- round(): a solver value within 1/2 of an integer is read as that integer (the code as it is, f5a395c) ---- *)
+From Coq Require Import Qround.
+Theorem py_round_near q z : inject_Z z - (1 # 2) < q -> q < inject_Z z + (1 # 2) -> py_round_half_even q = z.
+Proof.
+  intros H1 H2. unfold py_round_half_even. destruct q as [n d]. cbn [Qnum Qden]. change (n / Z.pos d)%Z with (Qfloor (n # d)). cbn zeta. set (q := n # d) in *.
+  pose proof (Qfloor_le q) as F1. pose proof (Qlt_floor q) as F2. rewrite inject_Z_plus in F2. change (inject_Z 1) with 1 in F2.
+  assert (Hz : (Qfloor q = z \/ Qfloor q = z - 1)%Z).
+  { assert (A : inject_Z (Qfloor q) < inject_Z (z + 1)) by (rewrite inject_Z_plus; change (inject_Z 1) with 1; lra).
+    assert (B : inject_Z (z - 2) < inject_Z (Qfloor q)).
+    { unfold Zminus. rewrite !inject_Z_plus. change (inject_Z (- (2))) with (- (2)). change (inject_Z 1) with 1. lra. }
+    rewrite <- Zlt_Qlt in A, B. lia. }
+  destruct Hz as [E|E]; rewrite E.
+  - destruct (Qlt_bool (q - inject_Z z) (1 # 2)) eqn:L; [reflexivity|].
+    exfalso. assert (q - inject_Z z < 1 # 2) by lra. apply Qlt_bool_iff in H. congruence.
+  - assert (Ez : inject_Z (z - 1) == inject_Z z - 1).
+    { unfold Zminus. rewrite inject_Z_plus. change (inject_Z (- (1))) with (- (1)). ring. }
+    destruct (Qlt_bool (q - inject_Z (z - 1)) (1 # 2)) eqn:L.
+    + apply Qlt_bool_iff in L. rewrite Ez in L. lra.
+    + destruct (Qlt_bool (1 # 2) (q - inject_Z (z - 1))) eqn:L2; [lia|].
+      exfalso. assert (1 # 2 < q - inject_Z (z - 1)) by (rewrite Ez; lra). apply Qlt_bool_iff in H. congruence.
+Qed.
+
+(* ---- partition constraints and the search range ---- *)
+Fixpoint part_sum (asg : list nat) (g : list Q) (j : nat) : Q :=
+  match asg, g with
+  | p :: ar, v :: gr => (if (p =? j)%nat then v else 0) + part_sum ar gr j
+  | _, _ => 0
+  end.
+(* every element of g is put into exactly one part; the part sums are the numbers of the constraint *)
+Definition part_ok (g : list Q) (cons : list Q) : Prop :=
+  exists asg, length asg = length g /\ forall j v, nth_error cons j = Some v -> part_sum asg g j == v.
+
+(* FIXED finding (883b781): without the extra cut points the range lowerbound .. len(numbers)+1 misses generating sets
+   that partition constraints force to be larger: numbers [1,1], total 6, constraints [2,2,2] and [6] are met by
+   {1,1,2,2} (size 4); the old range ends at 3, the range as it is now reaches 5 *)
+Theorem mgsm_range_old_partition_refuted : exists numbers total parts g,
+  length g = 4%nat /\ genset 1 numbers total g /\ Forall (part_ok g) parts /\
+  ~ In 4%nat (mgsm_range 1 (length numbers) 0) /\ In 4%nat (mgsm_range 1 (length numbers) (extra_cuts (Some parts))).
+Proof.
+  exists [1; 1], 6, [[2; 2; 2]; [6]], [1; 1; 2; 2]. split; [reflexivity|]. split; [|split; [|split]].
+  - split; [repeat constructor; lra|]. split; [vm_compute; reflexivity|].
+    intros a [<-|[<-|[]]]; exists [1; 0; 0; 0]%Z; (split; [reflexivity|]); (split; [repeat (apply Forall_cons; [lia|]); apply Forall_nil|]); vm_compute; reflexivity.
+  - constructor; [|constructor; [|constructor]].
+    + exists [0; 0; 1; 2]%nat. split; [reflexivity|]. intros j v H. do 3 (destruct j as [|j]; [cbn in H; injection H as <-; vm_compute; reflexivity|]). destruct j; discriminate.
+    + exists [0; 0; 0; 0]%nat. split; [reflexivity|]. intros [|j] v H; cbn in H; [injection H as <-; vm_compute; reflexivity|destruct j; discriminate].
+  - vm_compute. intros [C|[C|[C|[]]]]; discriminate.
+  - vm_compute. tauto.
+Qed.
+
+(* FIXED finding (a068bcc): with multiplicities a number may exceed the total; bounding the products pi by the total
+   made small generating sets infeasible: numbers [1,2], total 1, multiplicity 2 is generated by {1} (2 = 2*1), the
+   encoder as it is now admits it for k = 1, the old one (pi <= total) admits nothing for k = 1 *)
+Definition ex_pi_inst : mgs_inst := {| mg_numbers := [1; 2]; mg_total := 1; mg_int := false; mg_mult := 2; mg_parts := None |}.
+Definition ex_pi_assign (v : var) : Q :=
+  match vidx v with
+  | [i] => if (vfam v =? fGen)%N then 1 else 0
+  | [i; j] => if (vfam v =? fX)%N || (vfam v =? fPi)%N then (if (j =? 0)%N then 1 else 2) else 0
+  | [p; i; j; b] => if (j =? b)%N then 1 else 0          (* Bit / Comp of product (0, j): x = 1 -> bit 0, x = 2 -> bit 1; gen = 1 *)
+  | _ => 0
+  end.
+Theorem mgs_pi_bound_old_refuted : exists (I : mgs_inst) (k : nat),
+  genset (mg_mult I) (mg_numbers I) (mg_total I) [1] /\ k = 1%nat /\
+  (exists a, sat a (encode_mgs I k)) /\ forall a, ~ sat a (encode_mgs_pi_old I k).
+Proof.
+  exists ex_pi_inst, 1%nat. split; [|split; [reflexivity|split]].
+  - split; [repeat constructor; lra|]. split; [vm_compute; reflexivity|].
+    intros a [<-|[<-|[]]]; [exists [1]%Z|exists [2]%Z]; (split; [reflexivity|]); (split; [repeat (apply Forall_cons; [cbn; lia|]); apply Forall_nil|]); vm_compute; reflexivity.
+  - exists ex_pi_assign. split; [apply Forall_dec_cols|apply Forall_dec_rows]; vm_compute; reflexivity.
+  - intros a Hsat. unfold encode_mgs_pi_old in Hsat. apply mgs_enc_sound in Hsat; [|cbn; lia|apply prod_ub_ge].
+    destruct Hsat as (_ & HT & HJ & _ & _). cbn [mg_total mg_numbers ex_pi_inst] in HT, HJ.
+    change (layers 1) with [0]%N in *. cbn [sumq] in HT.
+    destruct (HJ 1%N 2 (or_intror (or_introl eq_refl))) as [HX HS]. cbn [sumq] in HS.
+    destruct (HX 0%N (or_introl eq_refl)) as (z & _ & _ & _ & _ & HP). lra.
 Qed.
